@@ -186,4 +186,45 @@ example : admitServer .v13 (.authority 1) false [.v12] (some ⟨some 1, [], true
 example : admitClient .v12 (.authority 1) (some "test.com") [.v13] (some ⟨some 1, ["test.com"], true, [], 3⟩) = some .v13 := by decide
 example : admitClient .v12 (.authority 1) (some "test.com") [.v13] (some ⟨some 1, ["other.com"], true, [], 3⟩) = none := by decide
 
+
+/-! ## The Certificate message as a list: the role is the end entity's -/
+
+/-- In authority mode certificates sent after the end entity change nothing: admission, version
+    and role are those of the first certificate alone.  (`peer_certificates().first()`) -/
+theorem extra_certificates_irrelevant (min : Ver) (t : Nat) (authz : Bool) (offered : List Ver)
+    (c : Cert) (rest : List Cert) :
+    admitServerChain min (.authority t) authz offered (c :: rest)
+      = admitServer min (.authority t) authz offered (some c) := by
+  cases rest <;> rfl
+
+/-- …so the session's role is exactly the single role extension of the end-entity certificate,
+    whatever roles the other presented certificates carry -/
+theorem role_is_end_entity_role (min : Ver) (t : Nat) (offered : List Ver) (c : Cert)
+    (rest : List Cert) (a : Admission)
+    (h : admitServerChain min (.authority t) true offered (c :: rest) = some a) :
+    ∃ r, c.roles = [r] ∧ a.role = some r := by
+  rw [extra_certificates_irrelevant] at h
+  exact role_is_certificate_role min (.authority t) offered c a h
+
+/-- a role-less end entity is refused even when a later certificate carries a role -/
+theorem roleless_end_entity_refused (min : Ver) (t : Nat) (offered : List Ver) (c : Cert)
+    (rest : List Cert) (h : c.roles.length ≠ 1) :
+    admitServerChain min (.authority t) true offered (c :: rest) = none := by
+  rw [extra_certificates_irrelevant]
+  exact no_role_refused min (.authority t) offered c h
+
+/-- the self-signed verifier accepts exactly one certificate -/
+theorem self_signed_single_certificate (min : Ver) (e : Nat) (authz : Bool) (offered : List Ver)
+    (c d : Cert) (rest : List Cert) :
+    admitServerChain min (.selfSigned e) authz offered (c :: d :: rest) = none := rfl
+
+/-- an empty Certificate message is refused in every mode -/
+theorem empty_chain_refused (min : Ver) (mode : Mode) (authz : Bool) (offered : List Ver) :
+    admitServerChain min mode authz offered [] = none := by
+  cases mode <;> simp [admitServerChain, admitServer, certAccepted] <;> split <;> rfl
+
+example : (admitServerChain .v12 (.authority 1) true [.v13]
+    [⟨some 1, ["client"], true, ["operator"], 7⟩, ⟨none, ["x"], true, ["admin"], 99⟩]).map (·.role)
+      = some (some "operator") := by decide
+
 end Rodbus.C09
